@@ -360,6 +360,7 @@ func vfC14(w *vfWorld) {
 	w.sample = cs
 
 	var curMint func(m *vfMintCtx)
+	lastRefreshAT := "" // access token of the most recent refresh answer the provider gave
 	var curAT func(c map[string]interface{})
 	var curATHit func(c *vfIdpCall) bool
 	var curATFired func()
@@ -450,6 +451,9 @@ func vfC14(w *vfWorld) {
 		}
 		if curMint != nil {
 			curMint(m)
+		}
+		if m.Kind == "refresh" && m.Resp != nil {
+			lastRefreshAT, _ = m.Resp["access_token"].(string)
 		}
 	}
 	nb := 0
@@ -665,7 +669,12 @@ func vfC14(w *vfWorld) {
 				if w.redis != nil {
 					sets = len(w.redis.Events())
 				}
+				lastRefreshAT = ""
 				r := act(b)
+				if rejectedAT == "" && !transient {
+					// the refresh as a whole is refused (whichever of its calls was struck): the tokens its answer carried are not adopted either
+					rejectedAT = lastRefreshAT
+				}
 				idp.Plan, curMint, idp.JWKSOverride, idp.Userinfo, idp.ConnPlan = nil, nil, nil, nil, nil
 				curAT, curATHit, curATFired = nil, nil, nil
 				curAZ, curAZHit, curAZFired = nil, nil, nil
